@@ -17,6 +17,11 @@ deriving Repr, DecidableEq
 
 def zeroF : Fields := ⟨0, 0, 0, 0⟩
 
+/-- 51f64dd: a segment of an open subpath that lies on a segment of a closed subpath disappears in
+it: the receiver stands for the closed segment from here on -/
+def closeOn (s p : Ent) : Ent :=
+  if s.seg.open_ && !p.seg.open_ then { s with seg := { s.seg with open_ := false } } else s
+
 /-- `combine selfWindings` -/
 def addSelf (s p : Ent) : Ent :=
   if s.seg.clipping = p.seg.clipping then
@@ -32,7 +37,7 @@ def absorb (s : Ent) : List Ent → Ent × List Ent × List Ent
   | p :: rest =>
     if p.overlapped || p.geom != s.geom then (s, [], p :: rest)
     else
-      let r := absorb (addSelf s p) rest
+      let r := absorb (addSelf (closeOn s p) p) rest
       (r.1, { p with f := zeroF, overlapped := true } :: r.2.1, r.2.2)
 
 /-- `compute merged windings` from the final `prev` (NOT skipping vertical segments — unlike
@@ -60,7 +65,8 @@ def merge (s : Ent) (below : List Ent) : Result :=
         if r.2.2.isEmpty then none else some r.2.1.length, true⟩
 
 /-! ## line protocol: `MRG op rule n {clip vert incr open overl geom w ow sw osw}*n` (top first) →
-per entry `w ow sw osw overlapped inResult` then the prev index (-1 = nil). `inResult` is the
+per entry `w ow sw osw overlapped inResult`, then the prev index (-1 = nil), then the `open` flag of
+every entry afterwards. `inResult` is the
 sentinel 7 for entries the code does not rewrite. -/
 
 def parseEnts : List String → Option (List Ent)
@@ -98,7 +104,8 @@ def handle : List String → Option String
       let pi : Int := match r.prevIdx with
         | some i => (i : Int) + 1
         | none => -1
-      pure (String.intercalate " " (top :: rest) ++ s!" {pi}")
+      let opens := (r.s :: r.below).map fun e => if e.seg.open_ then "1" else "0"
+      pure (String.intercalate " " (top :: rest) ++ s!" {pi} " ++ String.intercalate " " opens)
   | _ => none
 
 end Canvas.C01Merge
